@@ -33,6 +33,10 @@ func IteI(c bool, a, b int64) int64
 // IsIntegral reports whether f has no fractional part.
 func IsIntegral(f float64) bool
 
+// CeilI / FloorI: least integer >= f / greatest integer <= f (f within int64 range).
+func CeilI(f float64) int64
+func FloorI(f float64) int64
+
 // Exact comparisons (over the reals) between an integer and a float64.
 func IntGeF(x int64, b float64) bool
 func IntGtF(x int64, b float64) bool
